@@ -48,14 +48,17 @@ fn query(o: &Opened, kv: &Kv, lo: &Lo, hi: &Hi, rot: usize, ev: &mut Ev, hooks: 
             return false;
         }
         Ok(Err(e)) => {
-            ev.violate("stream-invariant", format!("{} ({})", e, rangeq::show_q(lo, hi)), desc(kv, lo, hi, "raw search_with_state"));
+            ev.violate("range-mismatch", format!("{} ({})", e, rangeq::show_q(lo, hi)), desc(kv, lo, hi, "raw search_with_state"));
             return false;
         }
-        Ok(Ok(got)) => {
+        Ok(Ok((got, breach))) => {
             let same = got.len() == want.len() && got.iter().zip(want.iter()).all(|(g, w)| g.0 == w.0 && g.1 == w.1);
             if !same {
-                fail(ev, "raw::Fst::search_with_state(AlwaysMatch)", format!("got {:?} want {:?}", got.iter().map(|g| (crate::json::show_bytes(&g.0), g.1)).take(20).collect::<Vec<_>>(), want.iter().map(|w| (crate::json::show_bytes(&w.0), w.1)).take(20).collect::<Vec<_>>()));
+                fail(ev, "raw::Fst::search_with_state(AlwaysMatch)", format!("got {:?} want {:?}{}", got.iter().map(|g| (crate::json::show_bytes(&g.0), g.1)).take(20).collect::<Vec<_>>(), want.iter().map(|w| (crate::json::show_bytes(&w.0), w.1)).take(20).collect::<Vec<_>>(), breach.map(|b| format!(" [hook H3 diagnosis: {}]", b)).unwrap_or_default()));
                 return false;
+            }
+            if breach.is_some() {
+                ev.count("hook:invariant-breach-with-correct-output(recorded, not judged)");
             }
         }
     }
@@ -318,7 +321,7 @@ pub fn run(ctx: &Ctx) -> i32 {
         ev,
         Spec {
             level: "exploration",
-            rule: "one evaluation = one range query (lower in {none,ge,gt} x upper in {none,le,lt} x bound strings) whose full output (keys, values, order, termination) is compared with the model filter, through raw search_with_state (monitored by hook H3: stack/key-buffer lock step after construction and after every next()) and one of Fst::range / Map::range / Set::range; FSTs: subsets of {a,b}^<=3 (quick: all subsets with <=4 keys + every 10th other; thorough: all 32768) with all pairs of bounds from {a,b}^<=3 + k.00, k.ff, last byte +-1, absent 4-byte strings; deep random maps over 3 symbols (incl. 00/7f/ff) with bounds = keys, prefixes, +-1 mutations, extensions; two corpora; repeated-bound settings; non-trivial = every query; distinct = (FST, query) pairs, distinct by construction",
+            rule: "one evaluation = one range query (lower in {none,ge,gt} x upper in {none,le,lt} x bound strings) whose full output (keys, values, order, termination) is compared with the model filter, through raw search_with_state (hook H3 checks stack/key-buffer lock step after construction and after every next(); a breach is attached as diagnosis to an output violation and otherwise only recorded) and one of Fst::range / Map::range / Set::range; FSTs: subsets of {a,b}^<=3 (quick: all subsets with <=4 keys + every 10th other; thorough: all 32768) with all pairs of bounds from {a,b}^<=3 + k.00, k.ff, last byte +-1, absent 4-byte strings; deep random maps over 3 symbols (incl. 00/7f/ff) with bounds = keys, prefixes, +-1 mutations, extensions; two corpora; repeated-bound settings; non-trivial = every query; distinct = (FST, query) pairs, distinct by construction",
             assumptions: vec!["bound classes (lo:*, hi:*) are decided from the inputs alone".into(), "hook H3 (verif_frames) is a read-only view; hook:* counts are recorded only".into()],
             floors,
             exhaustive: Some(!quick),
